@@ -83,6 +83,8 @@ class RandomState:
             raise Inconclusive("RandomState.shuffle on a non-array")
 
     def permutation(self, n):
+        if isinstance(n, Arr) and n.ndim == 0:
+            n = n.item()
         if isinstance(n, Arr):
             x = n.copy()
             self.shuffle(x)
@@ -143,6 +145,11 @@ class _GlobalRandom:
             ctx.log.append(("rng_seed", s))
 
     def permutation(self, n):
+        if isinstance(n, Arr) and n.ndim == 0:
+            n = n.item()
+        if not isinstance(n, Arr) and int(n) < 0:
+            # numba semantics (the only caller is a jitted kernel): permutation(n) = shuffled arange(n), empty for n < 0
+            return NDArray(np.empty((0,), dtype=object), dtype="int64")
         return self._state().permutation(n)
 
     def shuffle(self, x):
